@@ -36,7 +36,7 @@ TXT = {
    ref="4"),
  "C19": dict(
    level="exploration",
-   text="Generated file-system layouts (symlinks of every kind incl. dangling and chains, secrets outside the sandbox, HOME cache) and generated path strings / schema names / frozen digests / source URIs are fed to the real tools while the storage seam and an independent audit hook record every path actually opened, created, renamed or removed; an independent lexical classifier decides which paths must be refused. Exhaustive for schema names over a 13-character alphabet up to length 4 (quick) / 5 (thorough) and for all ordered pairs of frozen references x entry points x cache tampering in between (each pair served by one forked process, since a resolver may keep state); seeded sampling elsewhere.",
+   text="Generated file-system layouts (symlinks of every kind incl. dangling and chains, secrets outside the sandbox, HOME cache) and generated path strings / schema names / frozen digests / source URIs are fed to the real tools while the storage seam and an independent audit hook record every path actually opened, created, renamed or removed; an independent lexical classifier decides which paths must be refused. Complete enumerations inside the sampling: every path of directory depth <= 1 (quick) / <= 2 (thorough) over 20 directory segments x 63 final segments x {absolute, relative} x 12 call kinds; every schema name over a 13-character alphabet up to length 4 / 5; all ordered pairs of schema look-ups (name x cwd x entry) and of frozen references (reference x entry x cache tampering in between), each sequence served by one forked process since a resolver may keep state; call(P)-change-layout-call(P) sequences. Seeded sampling elsewhere.",
    note="Trusted: seam + audit hook together see every file access of the calling thread; the classifier (lexical walk with lstat) is independent of the code's validators. Races where a component is swapped during the call are out of scope.",
    tech="storage seam as recorder over generated file-system configurations (no schedule or fault dimension: the seam is used as an observer)",
    ref="6"),
